@@ -296,7 +296,20 @@ def run_case(case):
         blog = [(ref.t, skey(ref))]
         keep1 = attach(ref, blog)
         T = ref.t + nsteps * ref.dt
-        ref.integrate(T, exact_finish_time=0)
+        # the interval is covered by one integrate() call or by many short ones: every call ends with a synchronisation outside the
+        # step loop, a window in which a request must not see a half-written state either
+        ncalls = 1 if case.get('calls', 0) == 0 else int(case['calls'])
+        targets = [ref.t + (T - ref.t) * (j + 1) / ncalls for j in range(ncalls)]
+
+        call_times = set([ref.t])
+
+        def drive(s_, log_=None):
+            for tg in targets:
+                s_.integrate(tg, exact_finish_time=0)
+                if log_ is not None:
+                    log_.append((s_.t, skey(s_)))       # the state left behind when the call returns
+                    call_times.add(s_.t)
+        drive(ref, blog)
         blog.append((ref.t, skey(ref)))
         final_ref = rt.digest(rt.sabin_sim(ref))
         boundary = set(blog)
@@ -328,7 +341,7 @@ def run_case(case):
             ths = [threading.Thread(target=client) for _ in range(3)]
             for t_ in ths:
                 t_.start()
-            sim.integrate(T, exact_finish_time=0)
+            drive(sim)
             stop[0] = True
             for t_ in ths:
                 t_.join()
@@ -358,12 +371,17 @@ def run_case(case):
                     nbad += 1
                     if nbad <= 3:
                         samet = [q for q in blog if q[0] == snap.t]
-                        add('server:snapshot-is-not-a-step-boundary-state:%s' % integ, '%s: served snapshot at t=%r %s' % (integ, snap.t, 'matches no boundary time of the run' if not samet else 'has the time of a step boundary but not its state (torn)'))
+                        # known finding: integrate() works on the simulation OUTSIDE the server's mutex at the beginning and at the end of
+                        # every call (initial heartbeat, synchronisation, dt bookkeeping); a torn snapshot at such a time is that race
+                        at_call_edge = bool(samet) and snap.t in call_times
+                        add('server:snapshot-is-not-a-step-boundary-state:%s' % ('taken-while-integrate-works-outside-its-mutex' if at_call_edge else integ), '%s: served snapshot at t=%r %s' % (integ, snap.t, 'matches no boundary time of the run' if not samet else 'has the time of a step boundary but not its state (torn)'))
                     continue
-                if cont_budget > 0 and snap.t != blog[-1][0]:
+                if cont_budget > 0 and snap.t != blog[-1][0] and ncalls == 1:
                     cont_budget -= 1
                     keep3 = attach(snap, None, skip_first=True)
-                    snap.integrate(T, exact_finish_time=0)
+                    for tg in targets:
+                        if (tg - snap.t) * (1 if T > 0 else -1) > 0:
+                            snap.integrate(tg, exact_finish_time=0)
                     if rt.digest(rt.sabin_sim(snap)) != final_ref:
                         add('server:continued-snapshot-diverges:%s' % integ, '%s: snapshot served at t=%r continued to the end does not reproduce the final state' % (integ, key[0]))
             cells.add(json.dumps(['server', integ, nsteps, int(unsafe)]))
@@ -386,7 +404,7 @@ def main(tier, seed):
     for i in range(6 if q else 60):
         cases['rel'].append(dict(kind='pythreads', seed=r.getrandbits(40), nsims=16, rounds=3 if q else 6))
     for i in range(12 if q else 80):
-        cases['rel'].append(dict(kind='server', seed=r.getrandbits(40), unsafe=i % 2))
+        cases['rel'].append(dict(kind='server', seed=r.getrandbits(40), unsafe=i % 2, calls=[0, 0, 60, 60][i % 4]))
     for i in range(3 if q else 24):
         cases['rel'].append(dict(kind='bystander', seed=r.getrandbits(40), secs=2.0 if q else 4.0))
     if have512:
